@@ -11,7 +11,7 @@ Driver for C01.  An abstract case is one protocol line
   record = name len(digits or empty) mol(text or empty) topo(0 circular/1 linear/2 none) division(text or empty) date(or empty)
            pads locusTrail originTrail blockLen perLine extraCuts omit(5 x 0/1: DEF ACC VER KEY SRC)
            definition bs accession bs version bs keywords bs source bs organism bs
-           nrefs { range bs trailGap(0/1) authors bs title bs journal bs pubmed bs remark bs }*
+           nrefs { number(own number, empty = the position) range bs trailGap(0/1) authors bs title bs journal bs pubmed bs remark bs }*
            nextras { key text bs }*
            nfeat { key loc bs nq { key value bs style(0 quoted,1 unquoted,2 no value) }* }*
            seq
@@ -41,13 +41,14 @@ def rep {α : Type} (p : P α) : Nat → P (List α)
   | n + 1 => do let a ← p; let as ← rep p n; return a :: as
 
 def pRef : P (RRef × RefLayout) := do
+  let number ← tokStr
   let range ← tokStr; let gb ← tokNats; let trailGap ← tokBool
   let authors ← tokStr; let ab ← tokNats
   let title ← tokStr; let tb ← tokNats
   let journal ← tokStr; let jb ← tokNats
   let pubmed ← tokStr; let pb ← tokNats
   let remark ← tokStr; let rb ← tokNats
-  return ({ range, authors, title, journal, pubmed, remark },
+  return ({ number, range, authors, title, journal, pubmed, remark },
           { range := gb, trailGap, authors := ab, title := tb, journal := jb, pubmed := pb, remark := rb })
 
 def pQual : P ((Str × Str) × List Nat × Nat) := do
